@@ -16,7 +16,7 @@ package json
 
 // C02 (integers): the value handed to strconv is the mathematical value of the
 // argument, in base 10; strconv's decimal text is trusted to denote it.
-//@ track appendStringComplex, appendBytesComplex, utf8.DecodeRuneInString, utf8.DecodeRune, strconv.AppendInt, strconv.AppendUint, strconv.AppendBool, strconv.AppendFloat, math.IsNaN, math.IsInf, Time.Unix, Time.UnixNano, Time.AppendFormat, Encoder.AppendFloat64
+//@ track IP.String, IPNet.String, HardwareAddr.String, appendStringComplex, appendBytesComplex, utf8.DecodeRuneInString, utf8.DecodeRune, strconv.AppendInt, strconv.AppendUint, strconv.AppendBool, strconv.AppendFloat, math.IsNaN, math.IsInf, Time.Unix, Time.UnixNano, Time.AppendFormat, Encoder.AppendFloat64
 
 //@ var JSONMarshalFunc(v) res, err
 //@   modifies nothing
@@ -601,6 +601,7 @@ package json
 //@   flag tags !binary_log
 //@   requires valueok(dst)
 //@   ensures emitsvalue(res, dst)
+//@   ensures [C02] ncalls(IP.String) == old(ncalls(IP.String)) + 1 && same(callarg(IP.String, old(ncalls(IP.String)), 0), ip)
 
 //@ func (Encoder).AppendIPPrefix(e, dst, pfx) res
 //@   props C01
@@ -608,6 +609,7 @@ package json
 //@   flag tags !binary_log
 //@   requires valueok(dst)
 //@   ensures emitsvalue(res, dst)
+//@   ensures [C02] ncalls(IPNet.String) == old(ncalls(IPNet.String)) + 1
 
 //@ func (Encoder).AppendMACAddr(e, dst, ha) res
 //@   props C01
@@ -615,6 +617,7 @@ package json
 //@   flag tags !binary_log
 //@   requires valueok(dst)
 //@   ensures emitsvalue(res, dst)
+//@   ensures [C02] ncalls(HardwareAddr.String) == old(ncalls(HardwareAddr.String)) + 1 && same(callarg(HardwareAddr.String, old(ncalls(HardwareAddr.String)), 0), ha)
 
 // ---------------------------------------------------------------------------
 // time.go
